@@ -263,6 +263,13 @@ theorem C04_points_exhausted (g : Geom α) (h : noNil g = true) :
       rw [hd] at hrel hL'
       simp [skipColl_none (g' :: rest') hL' i j p (by simp) hrel, bind, Except.bind]
 
+/-- a `Point`'s iterator never ends: any number of calls returns the point again (so "one more call" above is every
+further call for a `Point`) -/
+theorem C04_point_forever (p : Pt α) (n : Nat) : drain (.point p : Geom α) n .pt = .ok (List.replicate n p) := by
+  induction n with
+  | zero => rfl
+  | succ n ih => simp [drain, next, ih, bind, Except.bind, pure, Except.pure, List.replicate_succ]
+
 /-- non-vacuity / the `*Bounds`-without-points case is real: `NewBounds()`-like box over `Nat`, `Len()` = 0, yet the
 closure returns `Min` -/
 example : afterLen (.bounds ⟨5, 5⟩ ⟨0, 0⟩ : Geom Nat) = .ok (.one 0) ∧
